@@ -8,12 +8,13 @@
 enum { CLS_NONBLANK, CLS_BLANK, CLS_MIXED, CLS_NONE };
 enum { LK_ENTRY, LK_HEADER, LK_COMMENT, LK_BLANK, LK_CONT, LK_RAW };
 
-typedef struct { const char *D, *C; int cls; char dn; /* first non-blank delimiter or 0 */ } cg_cfg;
+typedef struct { const char *D, *C; const char *Carg; int cls; char dn; /* first non-blank delimiter or 0 */ } cg_cfg;   /* C = effective comment characters, Carg = what is passed to the library ("" means the default "#") */
 static cg_cfg cg;
 
 static const char *CG_DELIMS[7] = { "=", ":=", " ", " \t", " =", "\t =", "" };
 static const char *CG_COMMENTS[3] = { "#", ";", "#;" };
 #define CG_NCFG 21
+#define CG_NCFG_WITH_DEFAULT_COMMENT 28
 
 static int cg_cur_cfg = -1;
 static void cg_build_tables(void);
@@ -21,7 +22,9 @@ static void cg_set_cfg(int idx)
 {
   if (idx == cg_cur_cfg) return;
   cg_cur_cfg = idx;
-  cg.D = CG_DELIMS[idx % 7]; cg.C = CG_COMMENTS[idx / 7];
+  cg.D = CG_DELIMS[idx % 7];
+  if (idx >= 21) { cg.C = "#"; cg.Carg = ""; }      /* configurations 21..27: the empty comment set, documented to mean '#' */
+  else { cg.C = CG_COMMENTS[idx / 7]; cg.Carg = cg.C; }
   int ws = 0, nws = 0; cg.dn = 0;
   for (const char *p = cg.D; *p; p++) { if (*p == ' ' || *p == '\t') ws = 1; else { nws = 1; if (!cg.dn) cg.dn = *p; } }
   cg.cls = !*cg.D ? CLS_NONE : (ws && nws) ? CLS_MIXED : ws ? CLS_BLANK : CLS_NONBLANK;
@@ -101,7 +104,7 @@ static struct {
   char seps[40][8]; int nseps;
   int ncc;
 } cgt;
-static const char *cg_heads[3] = { "A", "B", "A B" };
+static const char *cg_heads[3] = { "AB", "A", "A B" };   /* "A" is a proper prefix of both others: a header must open exactly the named section */
 
 static void cg_build_tables(void)
 {
@@ -120,7 +123,9 @@ static void cg_build_tables(void)
     else if (cg_opt_quoted) {
       snprintf(cgt.qv[cgt.nqv++], 16, "%s", "q");
       snprintf(cgt.qv[cgt.nqv++], 16, "%s", " q ");
-      for (const char *c = cg.C; *c; c++) snprintf(cgt.qv[cgt.nqv++], 16, "a%cb", *c);
+      /* both usual comment characters inside quotes, whatever the comment set of this configuration is (the object's
+       * comment tag may be changed after parsing) */
+      snprintf(cgt.qv[cgt.nqv++], 16, "a#b"); snprintf(cgt.qv[cgt.nqv++], 16, "a;b");
       if (cg.dn) snprintf(cgt.qv[cgt.nqv++], 16, "a%cb", cg.dn);
       snprintf(cgt.qv[cgt.nqv++], 16, "%s", "");
     }
